@@ -1,4 +1,7 @@
-"""util::gcd (verified) and the fold step of util::lcm (outlined closure body, verified) (C12 C03)."""
+"""util::gcd (verified: divides both arguments, non-zero unless both are zero) and the fold step of util::lcm
+(outlined closure body, verified: at least both operands) (C03 C12).  `util::lcm` itself is the one-liner
+`iter.try_fold(1usize, <step>)`; the verified text reaches the step through `v_lcm_flat_map` (W9), after checking
+textually that the one-liner still has that shape."""
 import rules
 from rules import fn_into_verus, loop_spec, ghost
 
@@ -7,12 +10,43 @@ def apply(ctx, W):
     fw = W.file("util.rs")
     fn, u = fn_into_verus(ctx, fw, "gcd", ret="r", tags=("C12", "C03"), ensures=[
         ("(a != 0 || b != 0) ==> r != 0", ("C12",), "gcd-nonzero"),
+        ("r != 0 ==> divides(r as nat, a as nat) && divides(r as nat, b as nat)", ("C03",), "gcd-divides"),
     ])
     lp = fw.loop(fn, 1)
     ghost(ctx, fw, u, rules.before(fw, lp), "let ghost a0 = a; let ghost b0 = b;")
-    loop_spec(ctx, fw, u, lp, tags=("C12",), invariants=["(a0 != 0 || b0 != 0) ==> (a != 0 || b != 0)"], decreases="b")
+    loop_spec(ctx, fw, u, lp, tags=("C12",), invariants=[
+        "(a0 != 0 || b0 != 0) ==> (a != 0 || b != 0)",
+        "forall|d: nat| d > 0 ==> (#[trigger] common_divisor(d, a as nat, b as nat) <==> common_divisor(d, a0 as nat, b0 as nat))",
+    ], decreases="b")
+    ghost(ctx, fw, u, rules.body_start(lp), """proof {
+            assert forall|d: nat| d > 0 implies (#[trigger] common_divisor(d, b as nat, (a % b) as nat) <==> common_divisor(d, a0 as nat, b0 as nat)) by {
+                lemma_euclid_step(a as nat, b as nat, d);
+            }
+        }""")
+    ghost(ctx, fw, u, rules.after(fw, lp), """proof {
+        if a != 0 {
+            assert(common_divisor(a as nat, a as nat, b as nat)) by { assert(a % a == 0) by (nonlinear_arith) requires a != 0; }
+            assert(common_divisor(a as nat, a0 as nat, b0 as nat));
+        }
+    }""")
     l = fw.fn("lcm")
+    tf = fw.method_calls(l, "try_fold")
+    if len(fw.top_stmts(l)) != 1 or len(tf) != 1 or " ".join(fw.text(tf[0]["receiver_span"]).split()) != "iter" \
+            or " ".join(fw.text(tf[0]["args"][0]["span"]).split()) != "1usize" or len(tf[0]["args"]) != 2 or not tf[0]["args"][1]["is_closure"]:
+        raise rules.WeaveError("util::lcm is no longer `iter.try_fold(1usize, |acc, x| ..)`")
     c = rules.closure_of_call(fw, l, "try_fold")
-    rules.outline_closure_body(ctx, fw, c, "lcm_step__v", "acc: usize, x: usize", "acc, x", "Option<usize>", tags=("C12", "C03"), ensures=[
+    rules.outline_closure_body(ctx, fw, c, "lcm_step__v", "acc: usize, x: usize", "acc, x", "Option<usize>", tags=("C12", "C03"), vis="pub(crate) ", ensures=[
         ("(acc == 0 || x == 0) ==> res == Some(0usize)", ("C03",), "lcm-step-zero"),
+        ("acc != 0 && x != 0 && res is Some ==> res->0 >= acc && res->0 >= x", ("C03",), "lcm-step-bounds"),
+        ("acc != 0 && x != 0 && res is Some ==> res->0 % acc == 0 && res->0 % x == 0", ("C03",), "lcm-step-common-multiple"),
     ])
+    # hints inside the step: the gcd divides both operands
+    ifs = fw.in_fn(l, ("if",))
+    if len(ifs) != 1 or ifs[0]["else_span"] is None:
+        raise rules.WeaveError("util::lcm step is not an if/else")
+    ghost(ctx, fw, "util::lcm_step__v", ifs[0]["else_span"][0] + 1, """proof {
+                assert forall|g: nat| #[trigger] divides(g, acc as nat) && divides(g, x as nat) implies
+                    (acc as nat / g) * (x as nat) >= acc && (acc as nat / g) * (x as nat) >= x by { lemma_lcm_step_bounds(acc as nat, x as nat, g); }
+                assert forall|g: nat| #[trigger] divides(g, acc as nat) && divides(g, x as nat) implies
+                    ((acc as nat / g) * (x as nat)) % (acc as nat) == 0 && ((acc as nat / g) * (x as nat)) % (x as nat) == 0 by { lemma_lcm_step_multiple(acc as nat, x as nat, g); }
+            }""")
